@@ -1173,6 +1173,11 @@ def _run(chk, rng, proof, work):
         cfg = cfg_from_model(w[1])
         r = runner.run(cfg, list(w[2]), policy="stop")
         chk.count("witness_replays")
+        if r["error"]:
+            # the schedule of the old-code witness cannot be executed on this tree (e.g. the guard is there but the
+            # translator could not read the source): not a statement about the property
+            chk.count("witness_not_applicable")
+            continue
         judge("witness-" + wname, cfg, [r], "witness")
 
     # step 3: every schedule of the configurations, enumerated on the real cache
